@@ -273,7 +273,7 @@ func (n *node) setup(group, pre string) error {
 		n.svc = b
 		if pre == "known" {
 			// peer A has shaken hands before: its beneficiary address is known
-			pl, err := n.build("tr.init", map[string]interface{}{"address": "ok", "cheque": "absent"})
+			pl, err := n.build("tr.init", map[string]interface{}{"address": "ok", "cheque": "empty"})
 			if err != nil {
 				return err
 			}
@@ -1441,7 +1441,7 @@ func (n *node) follow(what string) (outcome, error) {
 // one scenario
 // ---------------------------------------------------------------------------------------------
 
-func runScenario(w *world, sc kit.Scenario, settleMax time.Duration, emit func(kit.Ev)) error {
+func runScenario(w *world, sc kit.Scenario, settleMax time.Duration, emit func(kit.Ev), mark func(kit.Ev)) error {
 	n, err := w.newNode(sc.Par, sc.Scn)
 	if err != nil {
 		return err
@@ -1478,10 +1478,12 @@ func runScenario(w *world, sc kit.Scenario, settleMax time.Duration, emit func(k
 				ev["cls"] = cls
 			}
 			ev["len"] = len(pl.wire)
+			mark(kit.Ev{"dop": name, "mt": m, "f": f, "cls": kit.Str(op, "cls")})
 			o, _ := n.exec(pl)
 			emit(o.into(ev))
 		case "follow":
 			what := kit.Str(op, "what")
+			mark(kit.Ev{"dop": "follow", "what": what})
 			o, err := n.follow(what)
 			if err != nil {
 				return err
